@@ -46,8 +46,13 @@ type script struct {
 	NoSentinelAfterClose bool `json:"no_sentinel_after_close,omitempty"`
 	// HistClose-1 is the number of results after which the consumer of the
 	// tracked history query closes its iterator (0: it reads to the end)
-	HistClose int    `json:"hist_close,omitempty"`
-	Steps     []step `json:"steps"`
+	HistClose int `json:"hist_close,omitempty"`
+	// NilCallbacks: the handlers' optional callbacks are left unset
+	NilCallbacks bool `json:"nil_callbacks,omitempty"`
+	// HookCancel: yield point at which the context of the application call whose
+	// request reaches it is cancelled
+	HookCancel string `json:"hook_cancel,omitempty"`
+	Steps      []step `json:"steps"`
 }
 
 // ---------------------------------------------------------------------------
@@ -211,7 +216,18 @@ var rules = []rule{
 	{"muc-invite", func(r *rand.Rand) []piece {
 		inv := el("invite", "", "from", "crone1@shakespeare.lit/desktop").add(el("reason", "").text("Hey Hecate"), el("continue", "", "thread", "e0ffe42b"))
 		x := el("x", nsMUCUser).add(inv, el("password", "").text("cauldronburn"))
-		return []piece{st(msg(pick(r, "", "normal"), "mi1", x).set("from", roomJID))}
+		typ := pick(r, "", "normal")
+		// every payload kind that reaches the client's message handler: mediated
+		// invitation, declined invitation, voice request form, status-only notice
+		switch r.Intn(5) {
+		case 1:
+			x = el("x", nsMUCUser).add(el("decline", "", "from", "hecate@shakespeare.lit").add(el("reason", "").text("Sorry, I'm too busy right now.")))
+		case 2:
+			x = el("x", nsMUCUser).add(el("status", "", "code", "104"), el("status", "", "code", "170"))
+		case 3:
+			return []piece{st(msg(typ, "mi1", x, xform("form", "http://jabber.org/protocol/muc#request", "muc#role", "participant", "muc#jid", "hag66@shakespeare.lit/pda")).set("from", roomJID))}
+		}
+		return []piece{st(msg(typ, "mi1", x).set("from", roomJID))}
 	}},
 	{"muc-direct-invite", func(r *rand.Rand) []piece {
 		x := el("x", nsConf, "jid", roomJID, "password", "cauldronburn", "reason", "Hey", "continue", "true", "thread", "e0ffe42b")
@@ -466,6 +482,16 @@ func genScript(r *rand.Rand, i int) *script {
 			st.Cuts, st.CancelAt = chooseSplit(r, st.Raw, 0)
 			st.Cancel = target
 		}
+		// a request of an application call has its context cancelled exactly at
+		// one of the library's hand-over points
+		for _, st := range sc.Steps {
+			if st.K == "act" && (st.Act == "muc.join" || st.Act == "muc.leave" || st.Act == "rcpt.send" || st.Act == "ibb.open" || st.Act == "hist.fetch") {
+				if r.Intn(3) == 0 {
+					sc.HookCancel = pick(r, "serve.handoff", "serve.handoff", "serve.lookup", "req.wait", "req.done")
+				}
+				break
+			}
+		}
 		// the consumer of a tracked history query closes its iterator early
 		for _, st := range sc.Steps {
 			if st.K == "act" && st.Act == "hist.fetch" {
@@ -485,6 +511,9 @@ func genScript(r *rand.Rand, i int) *script {
 			sc.Muts = append(sc.Muts, "local-close")
 		}
 	}
+	// the handlers' optional callbacks left unset (any round: the canonical
+	// stanzas must not need them either)
+	sc.NilCallbacks = r.Intn(6) == 0
 	return sc
 }
 
@@ -599,7 +628,9 @@ func (e *env) runAct(name string) *action {
 			}
 			return err == nil, err
 		})
+		e.mu.Lock()
 		a.detached = true
+		e.mu.Unlock()
 		return a
 	}
 	switch name {
@@ -783,13 +814,20 @@ var sentinelPing = "<iq xmlns='jabber:client' type='get' id='%s' from='" + peerJ
 
 func runScript(c *core.Case, sc *script) {
 	c.Sample(sc)
-	e, err := newEnv(c)
+	e, err := newEnv(c, envOpts{nilCallbacks: sc.NilCallbacks, hookCancel: sc.HookCancel})
 	if err != nil {
 		c.Notef("session setup failed: %v", err)
 		c.Count("setup_failed", 1)
 		return
 	}
 	e.readAll = sc.ReadAll
+	if sc.NilCallbacks {
+		c.Count("w1_nil_callback_cases", 1)
+		c.Count("w1_nil_callback_cases:"+sc.Rule, 1)
+	}
+	if sc.HookCancel != "" {
+		c.Count("hook_cancel_armed:"+sc.HookCancel, 1)
+	}
 	e.histClose = sc.HistClose - 1
 	e.mu.Lock()
 	e.autoReply = func(req *xmltree.Node) string {
@@ -920,6 +958,7 @@ func runScript(c *core.Case, sc *script) {
 end:
 	e.finish(sc.Close)
 	e.checkServeNil()
+	e.countHook()
 	e.report(sc)
 }
 
